@@ -38,8 +38,17 @@ def run(mir_path, scenario, src_dir):
     lens = [int(x) for x in parts[1:]]
     ncalls = len(lens)
     two = parts[0] == "two"
+    many = parts[0] == "many"
+    RULES = ("Q", "W")
+    if many:
+        # `many:<n>:<L1>:<L2>`: n pattern rules R000.. of which only the first and the 65th can be switched (all others are off), two
+        # calls with independent configurations: a cache key that stops telling rules apart beyond a machine word shows here
+        nrules, lens = lens[0], lens[1:]
+        ncalls = len(lens)
+        RULES = tuple(f"R{i:03d}" for i in range(nrules))
+        SWITCHABLE = (RULES[0], RULES[64]) if nrules > 64 else (RULES[0], RULES[-1])
     chars = [[z3.BitVec(f"d{d}c{i}", 32) for i in range(L)] for d, L in enumerate(lens)]
-    enabled = [{k: z3.Bool(f"call{d}_{k}_enabled") for k in ("Q", "W")} for d in range(ncalls)]
+    enabled = [{k: (z3.Bool(f"call{d}_{k}_enabled") if (not many or k in SWITCHABLE) else z3.BoolVal(False)) for k in RULES} for d in range(ncalls)]
     ex = Explorer()
     result = {"scenario": scenario, "violations": [], "panics": [], "functions": set()}
     TK, PU = enums["TokenKind"], enums["Punctuation"]
@@ -49,7 +58,7 @@ def run(mir_path, scenario, src_dir):
             return None
         docs = ["".join(chr(min(model.eval(c, model_completion=True).as_long(), 0x10FFFF)) if 32 <= model.eval(c, model_completion=True).as_long() < 127 else "w"
                         for c in cs) for cs in chars]
-        cfg = [{k: bool(model.eval(b, model_completion=True)) for k, b in en.items()} for en in enabled]
+        cfg = [{k: bool(model.eval(b, model_completion=True)) for k, b in en.items() if not many or k in SWITCHABLE} for en in enabled]
         return {"documents": docs, "enabled_per_call": cfg}
 
     def body(ctx):
@@ -65,6 +74,8 @@ def run(mir_path, scenario, src_dir):
             for i in range(L):
                 c = chars[d][i]
                 ctx.assume(z3.ULE(c, 0x10FFFF))
+                if many and i == L - 1:
+                    ctx.assume(c == 46)  # the document is one clause ending in a period
                 if ctx.branch(c == 46):
                     kinds.append("period")
                     k = Enum("Punctuation", TK.index("Punctuation"), [Enum("Period", PU.index("Period"), [])])
@@ -92,7 +103,7 @@ def run(mir_path, scenario, src_dir):
             else:
                 for j in range(lo, hi):
                     if kinds_all[d][j] == "word":
-                        out.append((j, j + 1, 2))
+                        out.append((j, j + 1, 2 if not many else 10 + RULES.index(rule)))
                         break
             return out
 
@@ -112,14 +123,16 @@ def run(mir_path, scenario, src_dir):
 
         def hash_one_stub(it, callee, args):
             en = enabled[state["call"]]
-            return Int(z3.If(en["Q"], z3.BitVecVal(1, 64), z3.BitVecVal(0, 64)) + z3.If(en["W"], z3.BitVecVal(2, 64), z3.BitVecVal(0, 64)))
+            t = z3.BitVecVal(0, 64)
+            for i, k in enumerate([k for k in RULES if not many or k in SWITCHABLE]):
+                t = t + z3.If(en[k], z3.BitVecVal(1 << i, 64), z3.BitVecVal(0, 64))
+            return Int(t)
 
         resolve = {r"^run_on_chunk::<": run_on_chunk_stub,
                    r"^LintGroupConfig::is_rule_enabled$": is_rule_enabled_stub,
                    r"as BuildHasher>::hash_one::<": hash_one_stub}
         group = Adt("LintGroup", ["config", MapObj([]),
-                                  MapObj([(StringObj([Int(ord("Q"), 32)]), Adt("StubRule", ["Q"])),
-                                          (StringObj([Int(ord("W"), 32)]), Adt("StubRule", ["W"]))]),
+                                  MapObj([(StringObj([Int(ord(c), 32) for c in k]), Adt("StubRule", [k])) for k in RULES]),
                                   LruObj(), "random-state"])
         it = Interp(raw, MODELS, ctx, resolve, enums=enums)
         gcell = Cell(group)
@@ -149,7 +162,7 @@ def run(mir_path, scenario, src_dir):
                 bounds.append((lo, L))
             want = []
             for lo, hi in bounds:
-                for rule in ("Q", "W"):
+                for rule in RULES:
                     if it.ctx.branch(enabled[d][rule]):
                         want += stub_rule(it, rule, lo, hi, d)
             ok = len(got) == len(want)
